@@ -992,12 +992,15 @@ func zvC04PathsLabel(p [2][]int) string {
 
 // zvC04Items lists the instantiations.
 // quick:    nested prefixes, first prefix with the full alphabet {B,E1,E2,W,S},
-//           second prefix with the equal-cost pair {E1,E2}; every unordered
-//           pair of options (the two clients are interchangeable: same
-//           alphabet for both).
+//
+//	second prefix with the equal-cost pair {E1,E2}; every unordered
+//	pair of options (the two clients are interchangeable: same
+//	alphabet for both).
+//
 // thorough: every ordered pair of options x {nested, full alphabet on both
-//           prefixes; sibling prefixes, full alphabet on both; nested, first
-//           prefix with a second static path {B,E1,E2,W,S,S2}, second {E1,E2}}.
+//
+//	prefixes; sibling prefixes, full alphabet on both; nested, first
+//	prefix with a second static path {B,E1,E2,W,S,S2}, second {E1,E2}}.
 func zvC04Items(thorough bool) []zvC04Item {
 	var out []zvC04Item
 	type cfg struct {
@@ -1036,6 +1039,16 @@ func TestVerifC04(t *testing.T) {
 		"non-trivial = distinct canonical states in which a registered client holds at least one path")
 	r.Require(zvC04Required...)
 	if r.IsReplay() {
+		var cc zvC04ConcCase
+		r.ReplayCase(&cc)
+		if len(cc.Mut) > 0 {
+			zvC04ConcRun(r, cc, append([]int{}, cc.Schedule...))
+			for _, k := range zvC04Required {
+				r.Count(k, 1)
+			}
+			r.Count("conc_executions", 1)
+			return
+		}
 		var c zvC04Case
 		r.ReplayCase(&c)
 		x := &zvC04Explorer{r: r, universe: c.Universe, paths: c.Paths, opts: c.Opts, ops: zvC04Alphabet(c.Paths), nontriv: map[[16]byte]bool{}}
@@ -1066,4 +1079,7 @@ func TestVerifC04(t *testing.T) {
 		closedAll = closedAll && closed
 	}
 	r.Extra("all_closed", closedAll)
+	// concurrent part (clients registered / unregistered DURING route changes), engine E3
+	r.Require("conc_executions")
+	zvC04Concurrent(r)
 }
